@@ -595,7 +595,7 @@ def names_tie(ctx):
     from jax2onnx.converter.ir_context import IRContext
     from jax2onnx.plugins.jax.lax._control_flow_utils import make_subgraph_context
     rng = ctx.rng
-    n_trees = 120 if ctx.tier == "quick" else 1200
+    n_trees = 100 if ctx.tier == "quick" else 1000
 
     def rand_base():
         if rng.random() < 0.7:
@@ -919,7 +919,7 @@ def run(ctx):
                 cls = reason_class(tool, msg)
                 gap = cr is not None and cr[0] and cls in ("ssa", "topological", "graph-output", "opset-import", "function")
                 ctx.violate(f"load:{tool}:{cls}:{cid}",
-                            f"{tool} rejects the export of {cid}: {msg[:300]}" + ("  [VALIDATOR GAP: wf_model accepted]" if gap else ""),
+                            f"{tool} rejects the export of {cid}: " + " ".join(msg[:300].split()) + ("  [VALIDATOR GAP: wf_model accepted]" if gap else ""),
                             dict(replay, tool=tool, message=msg))
                 break   # one violation per case: the first rejecting tool
         if len(samples) < 8 and (st["subgraphs"] or st["functions"]):
@@ -928,7 +928,7 @@ def run(ctx):
         cid, replay, msgs = cases[0]
         ctx.violate(f"load:unknown-op:{op}",
                     f"operator {op} is not defined at the declared opset in {len(cases)} export(s), e.g. {', '.join(c[0] for c in cases[:4])}"
-                    f" (see C11): {next(v for v in msgs.values() if v)[:200]}",
+                    f" (see C11): " + " ".join(next(v for v in msgs.values() if v)[:200].split()),
                     dict(replay, cases=[c[0] for c in cases], messages=msgs))
     ctx.oblige("tie:wf_first_bad-agrees-with-wf_model", not disagree, "tie", f"disagree on {disagree[:5]}" if disagree else "")
     ctx.oblige("tie:onnx2coq-table-consistent(table_ok on every export)", not table_bad, "tie",
